@@ -613,3 +613,37 @@ func (r *Ref) ForgeBlob(nodeID, idPub, yRepr, auth, pad []byte, hour int64) []by
 	}
 	return nil
 }
+
+// ---------------------------------------------------------------- recording conns for the concurrent families
+
+// RecConn records every Write made on a net.Conn (the bytes one endpoint put on the wire).
+type RecConn struct {
+	net.Conn
+	mu     sync.Mutex
+	writes [][]byte
+}
+
+func (c *RecConn) Write(p []byte) (int, error) {
+	c.mu.Lock()
+	c.writes = append(c.writes, append([]byte(nil), p...))
+	c.mu.Unlock()
+	return c.Conn.Write(p)
+}
+
+func (c *RecConn) Writes() [][]byte {
+	c.mu.Lock()
+	defer c.mu.Unlock()
+	return append([][]byte(nil), c.writes...)
+}
+
+// CliNewKey creates a reference client with an explicit session key.
+func (r *Ref) CliNewKey(s string, nodeID, idPub, xPriv, xPub, xRepr []byte, hour int64) bool {
+	f := r.call("cli.newkey %s %s %s %s %s %s %d", s, vlib.Hex(nodeID), vlib.Hex(idPub), vlib.Hex(xPriv), vlib.Hex(xPub), vlib.Hex(xRepr), hour)
+	return len(f) == 1 && f[0] == "ok"
+}
+
+// LinkSwap makes s2 the peer's link of the established session s.
+func (r *Ref) LinkSwap(s, s2 string) bool {
+	f := r.call("link.swap %s %s", s, s2)
+	return len(f) == 1 && f[0] == "ok"
+}
